@@ -59,7 +59,7 @@ func flush(r *hx.Run, sub uint64, res *result) {
 func main() {
 	r := hx.Start()
 	installHooks()
-	r.Rule = "cases = forced schedules (hooks), deterministic life cycles and stress runs over W in 1..4 x cancel on/off x " +
+	r.Rule = "cases = forced schedules (hooks: Submit window, PopOrWait gap, Start window), deterministic life cycles and stress runs over W in 1..4 x cancel on/off x " +
 		"modes drain|racing|pending|restart x nesting depth 0..2, plus group trees; non-trivial = at least one task accepted " +
 		"(distinct by descriptor, accepted/rejected counts and trace length) or a forced schedule / group script executed"
 	if lines := r.ReplayLines(); lines != nil {
@@ -128,12 +128,7 @@ func main() {
 			flush(r, j.sub, out[k])
 		}
 		// enough evidence: every further failing case costs its full wait bounds
-		unrecorded := 0
-		for _, f := range r.Findings {
-			if e := f.Signature["effect"]; e != "pushed-after-dispatcher-left-its-loop" && e != "shutdown-signal-lost" {
-				unrecorded++
-			}
-		}
+		unrecorded := len(r.Findings)
 		if unrecorded >= 24 {
 			r.Count("aborted-after-many-findings")
 
